@@ -40,7 +40,20 @@ def check_generate_next(seed):
                 return "get_fundamental_price: path does not cover the requested time / wrong value"
         else:
             t = rng.randint(0, min(len(p) for p in f.prices.values()) - 1)
-            if r < 0.8:
+            if r >= 0.9 and n >= 2:
+                # a correlation set (or removed) later in the run, also at time 0 / with the time omitted: later values must be regenerated from that time on
+                a, b = rng.sample(range(n), 2)
+                if rng.random() < 0.5:
+                    t = 0
+                    if rng.random() < 0.5:
+                        f.set_correlation(a, b, rng.choice([0.5, -0.4]))
+                    else:
+                        f.set_correlation(a, b, rng.choice([0.5, -0.4]), time=0)
+                elif (a, b) in f.correlation or (b, a) in f.correlation:
+                    f.remove_correlation(a, b, time=t)
+                else:
+                    f.set_correlation(a, b, rng.choice([0.5, -0.4]), time=t)
+            elif r < 0.8:
                 f.change_volatility(market_id=rng.randrange(n), volatility=rng.choice([0.0, 0.03]), time=t)
             else:
                 f.change_drift(market_id=rng.randrange(n), drift=rng.choice([0.0, -0.002]), time=t)
